@@ -3,6 +3,7 @@ from asyncio import (
     Future,
     gather,
     get_event_loop,
+    iscoroutine,
     iscoroutinefunction,
     run_coroutine_threadsafe,
 )
@@ -73,7 +74,12 @@ class ScopeMetrics:
             else:
 
                 def callback(_: Future[float]) -> None:
-                    completion(metrics)
+                    # async callable objects are not recognized as coroutine functions
+                    if iscoroutine(result := completion(metrics)):
+                        run_coroutine_threadsafe(
+                            result,
+                            metrics._loop,
+                        )
 
             self._completed.add_done_callback(callback)
 
